@@ -64,19 +64,20 @@ META = dict(
                  "repaired in /repo 7e92bc1; regression input corpus/C01/d19_*.json). Not generated: a name re-bound between two messages "
                  "that name it while the first is still executing"],
 )
+# params_p: task functions with further, annotated message parameters that receive values (recv_props.decorate_params)
 # reg_p: when and where the tasks the messages name get registered (recv_props.decorate_reg)
 # dup_p: one task name registered with two different functions (recv_props.decorate_dup); dup_stale_any: also pairs whose
 # injected parameters differ while the Receiver was built before the designated function was registered - the stale per-name
 # cache of the pinned snapshot (defect D19) is repaired in /repo 7e92bc1
-PROF = dict(stop_p=.4, n_p=.35, ends_p=.2, wtt_p=.25, never=.03, wire_p=.3, reg_p=.25, dup_p=.1, dup_stale_any=True)
-PROF_BACKLOG = dict(backlog=True, stop_p=.3, n_p=.5, ends_p=.1, wtt_p=.2, wire_p=.3, reg_p=.15, dup_p=.1, dup_stale_any=True)
+PROF = dict(stop_p=.4, n_p=.35, ends_p=.2, wtt_p=.25, never=.03, wire_p=.3, reg_p=.25, dup_p=.1, dup_stale_any=True, params_p=.12)
+PROF_BACKLOG = dict(backlog=True, stop_p=.3, n_p=.5, ends_p=.1, wtt_p=.2, wire_p=.3, reg_p=.15, dup_p=.1, dup_stale_any=True, params_p=.12)
 # run_receiver_task running for the whole scenario over a listen() that fails 0..3 times (recv_props.gen_live)
-PROF_LIVE = dict(stop_p=.4, n_p=.3, ends_p=.15, wtt_p=.2, wire_p=.2, reg_p=.3, dup_p=.1, dup_stale_any=True)
+PROF_LIVE = dict(stop_p=.4, n_p=.3, ends_p=.15, wtt_p=.2, wire_p=.2, reg_p=.3, dup_p=.1, dup_stale_any=True, params_p=.12)
 # run_receiver_task cancelled by the application that embeds it while sync functions wait in a small pool (recv_props.gen_live_cancel)
 PROF_CANCEL = dict(stop_p=.12, n_p=.08, ends_p=.1, wtt_p=.08, slowcancel=.05, aw_p=.12, outage_p=.05, wire_p=.1)
 
 # one Receiver object that listens again after listen() failed while every slot was busy (recv_props.gen_relisten, mode fault only)
-PROF_RELISTEN = dict(wire_p=.2, reg_p=.1, relisten_stop_p=0, relisten_any_p=.1, dup_p=.1, dup_stale_any=True)
+PROF_RELISTEN = dict(wire_p=.2, reg_p=.1, relisten_stop_p=0, relisten_any_p=.1, dup_p=.1, dup_stale_any=True, params_p=.1)
 
 
 def oracle(sc, obs):
